@@ -207,12 +207,13 @@ Proof. unfold nl_solve; cbn [nl_loop]; discriminate. Qed.
 (** ---- the steady state computed along a well-formed order is consistent with every block ---- *)
 Lemma eval_ss_ext (s s' : nat -> Qc) e : (forall x, In x (evars e) -> s x = s' x) -> qeval_ss s e = qeval_ss s' e.
 Proof.
-  unfold qeval_ss. induction e as [x|c|k e IH|e IH|e IH|a IHa b IHb|a IHa b IHb|a IHa b IHb|a IHa b IHb|a IHa n]; intros H;
+  unfold qeval_ss. induction e as [x|c|k e IH|e IH|e IH|a IHa b IHb|a IHa b IHb|a IHa b IHb|a IHa b IHb|a IHa n|g dg e IHg]; intros H;
     cbn [SimpleBlk.eval_ss evars] in *; try reflexivity;
     try (rewrite IH by exact H; reflexivity);
     try (rewrite IHa, IHb by (intros; apply H; apply in_or_app; auto); reflexivity).
   - apply H. left; reflexivity.
   - rewrite IHa by exact H. reflexivity.
+  - rewrite IHg by exact H. reflexivity.
 Qed.
 
 Lemma qlookup_upd_nth n x (l : tbl) k : (n < length l)%nat -> qlookup (upd_nth n x l) k = if Nat.eqb k n then x else qlookup l k.
@@ -371,12 +372,13 @@ Qed.
 Lemma eval_td_ext T ss ssi (env env' : nat -> Z -> Qc) e : (forall x, In x (evars e) -> forall u, env x u = env' x u) ->
   forall t, qeval_td T ss ssi env e t = qeval_td T ss ssi env' e t.
 Proof.
-  unfold qeval_td. induction e as [x|c|k e IH|e IH|e IH|a IHa b IHb|a IHa b IHb|a IHa b IHb|a IHa b IHb|a IHa n]; intros H t;
+  unfold qeval_td. induction e as [x|c|k e IH|e IH|e IH|a IHa b IHb|a IHa b IHb|a IHa b IHb|a IHa b IHb|a IHa n|g dg e IHg]; intros H t;
     cbn [SimpleBlk.eval_td evars] in *; try reflexivity;
     try (rewrite IH by exact H; reflexivity);
     try (rewrite IHa, IHb by (intros; apply H; apply in_or_app; auto); reflexivity).
   - apply H. left; reflexivity.
   - rewrite IHa by exact H. reflexivity.
+  - rewrite IHg by exact H. reflexivity.
 Qed.
 
 Definition out_path (T : Z) (ss ssi : tbl) (P : paths) (e : @expr Qc) : list Qc :=
